@@ -3,8 +3,6 @@
 use h_common::{main_with, Cur, V};
 use s2n_quic_core::sync::{cursor, spsc, worker};
 use std::{
-    cell::{Cell, RefCell},
-    rc::Rc,
     sync::{
         atomic::{AtomicBool, AtomicU64, AtomicUsize, Ordering},
         Arc,
@@ -26,42 +24,85 @@ impl Wake for CountWaker {
 /// an item that records its own destruction unless the harness took it out of the channel itself
 struct Item {
     v: u64,
-    silent: Cell<bool>,
-    log: Rc<RefCell<Vec<u64>>>,
+    silent: AtomicBool,
+    log: Arc<std::sync::Mutex<Vec<u64>>>,
 }
 impl Drop for Item {
     fn drop(&mut self) {
-        if !self.silent.get() {
-            self.log.borrow_mut().push(self.v);
+        if !self.silent.load(Ordering::SeqCst) {
+            self.log.lock().unwrap().push(self.v);
         }
     }
 }
 
 const MAX_K: usize = 200;
 
+/// The sender task: owns the Sender; its waker counts invocations and, in inline mode, polls the
+/// sender from inside `wake()` (what a second thread scheduled at that instant would do).
+struct SenderTask {
+    sender: std::sync::Mutex<Option<spsc::Sender<Item>>>,
+    count: AtomicUsize,
+    inline: AtomicBool,
+    /// (number of inline polls, last code, wake count at the last one) since the last reset
+    inl: std::sync::Mutex<(V, V, V)>,
+}
+impl SenderTask {
+    fn poll_inline(self: &Arc<Self>) {
+        // the lock is free: the sender's waker is only invoked from receiver-side operations
+        let Ok(mut guard) = self.sender.try_lock() else { return };
+        let Some(sender) = guard.as_mut() else { return };
+        let waker = Waker::from(self.clone());
+        let code = match sender.poll_slice(&mut Context::from_waker(&waker)) {
+            Poll::Ready(Ok(_slice)) => 0,
+            Poll::Pending => 3,
+            Poll::Ready(Err(_)) => 4,
+        };
+        let mut inl = self.inl.lock().unwrap();
+        inl.0 += 1;
+        inl.1 = code;
+        inl.2 = self.count.load(Ordering::SeqCst) as V;
+    }
+}
+impl Wake for SenderTask {
+    fn wake(self: Arc<Self>) {
+        self.count.fetch_add(1, Ordering::SeqCst);
+        if self.inline.load(Ordering::SeqCst) {
+            self.poll_inline();
+        }
+    }
+}
+
 /// case = [capacity; (op, arg)*]; see coq/model/Spsc.v `run` for the protocol
 fn spsc(input: &[V]) -> Vec<V> {
     let mut c = Cur::new(input);
     let capacity = c.next().clamp(0, 128) as usize;
     let (send, recv) = spsc::channel::<Item>(capacity);
-    let mut send = Some(send);
+    let task = Arc::new(SenderTask {
+        sender: std::sync::Mutex::new(Some(send)),
+        count: AtomicUsize::new(0),
+        inline: AtomicBool::new(false),
+        inl: std::sync::Mutex::new((0, 0, 0)),
+    });
     let mut recv = Some(recv);
     let rcount = Arc::new(CountWaker(AtomicUsize::new(0)));
-    let scount = Arc::new(CountWaker(AtomicUsize::new(0)));
     let rwaker = Waker::from(rcount.clone());
-    let swaker = Waker::from(scount.clone());
-    let log = Rc::new(RefCell::new(Vec::new()));
+    let swaker = Waker::from(task.clone());
+    let log = Arc::new(std::sync::Mutex::new(Vec::new()));
     let mut next: u64 = 1;
     let mut out: Vec<V> = vec![];
 
     while !c.done() {
         let op = c.next();
-        let k = (c.next().clamp(0, MAX_K as V)) as usize;
+        let arg = c.next();
+        let k = (arg.clamp(0, MAX_K as V)) as usize;
         let mut code: V = 0;
         let mut vals: Vec<V> = vec![];
+        let inline_now = task.inline.load(Ordering::SeqCst);
+        *task.inl.lock().unwrap() = (0, 0, 0);
         match op {
             0 | 1 => {
-                if let Some(s) = send.as_mut() {
+                let mut guard = task.sender.lock().unwrap();
+                if let Some(s) = guard.as_mut() {
                     let slice = if op == 0 {
                         match s.try_slice() {
                             Ok(Some(sl)) => Some(sl),
@@ -89,14 +130,14 @@ fn spsc(input: &[V]) -> Vec<V> {
                     };
                     if let Some(mut sl) = slice {
                         for _ in 0..k {
-                            let item = Item { v: next, silent: Cell::new(false), log: log.clone() };
+                            let item = Item { v: next, silent: AtomicBool::new(false), log: log.clone() };
                             match sl.push(item) {
                                 Ok(()) => {
                                     vals.push(next as V);
                                     next += 1;
                                 }
                                 Err(spsc::PushError::Full(item)) => {
-                                    item.silent.set(true);
+                                    item.silent.store(true, Ordering::SeqCst);
                                     code = 1;
                                     break;
                                 }
@@ -112,9 +153,11 @@ fn spsc(input: &[V]) -> Vec<V> {
                 }
             }
             4 => {
-                if send.take().is_none() {
+                let taken = task.sender.lock().unwrap().take();
+                if taken.is_none() {
                     code = 9;
                 }
+                drop(taken);
             }
             2 | 3 => {
                 if let Some(r) = recv.as_mut() {
@@ -147,7 +190,7 @@ fn spsc(input: &[V]) -> Vec<V> {
                         for _ in 0..k {
                             match sl.pop() {
                                 Some(item) => {
-                                    item.silent.set(true);
+                                    item.silent.store(true, Ordering::SeqCst);
                                     vals.push(item.v as V);
                                 }
                                 None => {
@@ -161,28 +204,40 @@ fn spsc(input: &[V]) -> Vec<V> {
                     code = 9;
                 }
             }
-            _ => {
+            5 => {
                 if recv.take().is_none() {
                     code = 9;
                 }
+            }
+            _ => {
+                // op 6: switch the sender task's waker to inline polling / back to counting
+                task.inline.store(arg != 0, Ordering::SeqCst);
             }
         }
         out.push(code);
         out.push(vals.len() as V);
         out.extend(vals);
         out.push(rcount.0.load(Ordering::SeqCst) as V);
-        out.push(scount.0.load(Ordering::SeqCst) as V);
+        out.push(task.count.load(Ordering::SeqCst) as V);
+        if inline_now && matches!(op, 2 | 3 | 5) {
+            let inl = *task.inl.lock().unwrap();
+            out.push(inl.0);
+            out.push(inl.1);
+            out.push(inl.2);
+        }
     }
+    task.inline.store(false, Ordering::SeqCst);
+    let send = task.sender.lock().unwrap().take();
     drop(send);
     drop(recv);
     // items that never entered the channel (push on a closed channel drops its argument) carry a
     // sequence number that was not consumed
-    let freed: Vec<u64> = log.borrow().iter().copied().filter(|v| *v < next).collect();
+    let freed: Vec<u64> = log.lock().unwrap().iter().copied().filter(|v| *v < next).collect();
     out.push(-1);
     out.push(freed.len() as V);
     out.extend(freed.iter().map(|v| *v as V));
     out.push(rcount.0.load(Ordering::SeqCst) as V);
-    out.push(scount.0.load(Ordering::SeqCst) as V);
+    out.push(task.count.load(Ordering::SeqCst) as V);
     out
 }
 
@@ -457,6 +512,134 @@ fn worker_clone(_input: &[V]) -> Vec<V> {
     vec![a.0, b.0, b.1, c.0, c.1]
 }
 
+/// platform socket ring + rx socket task (socket/ring.rs, socket/task/rx.rs) with a scripted socket:
+/// case = [log2 entries; (op, a, b)*]; see coq/model/RxRing.v
+fn rx_ring(input: &[V]) -> Vec<V> {
+    use core::future::Future;
+    use s2n_quic_core::task::cooldown::Cooldown;
+    use s2n_quic_platform::{
+        message::simple::Message,
+        socket::{ring, stats, task::rx},
+        syscall::SocketEvents as _,
+    };
+    use std::pin::Pin;
+
+    /// each recv call delivers the next scripted number of messages (bounded by the entries it is
+    /// given); 0 or an exhausted script means the socket would block
+    struct ScriptSocket(std::collections::VecDeque<usize>, Arc<AtomicUsize>);
+    impl rx::Socket<Message> for ScriptSocket {
+        type Error = ();
+        fn recv(
+            &mut self,
+            _cx: &mut Context,
+            entries: &mut [Message],
+            events: &mut rx::Events,
+            _stats: &stats::Sender,
+        ) -> Result<(), ()> {
+            match SCRIPT.with(|s| s.borrow_mut().pop_front()) {
+                Some(v) if v > 0 => {
+                    let n = v.min(entries.len());
+                    self.1.fetch_add(n, Ordering::SeqCst);
+                    let _ = events.on_complete(n);
+                }
+                _ => events.blocked(),
+            }
+            Ok(())
+        }
+    }
+
+    let mut c = Cur::new(input);
+    let k = c.next().clamp(0, 6) as u32;
+    let entries = 1u32 << k;
+    let (producer, consumer) = ring::pair::<Message>(entries, 32);
+    let mut consumer = Some(consumer);
+    let (stats_tx, _stats_rx) = stats::channel();
+    let delivered = Arc::new(AtomicUsize::new(0));
+    let mut task = rx::Receiver::new(
+        producer,
+        ScriptSocket(Default::default(), delivered.clone()),
+        None,
+        Cooldown::default(),
+        stats_tx,
+    );
+    // the script is handed to the socket through a second handle: Receiver owns the socket, so the
+    // harness keeps the script in a shared queue instead
+    let ccount = Arc::new(CountWaker(AtomicUsize::new(0)));
+    let tcount = Arc::new(CountWaker(AtomicUsize::new(0)));
+    let cwaker = Waker::from(ccount.clone());
+    let twaker = Waker::from(tcount.clone());
+    let mut acquired: u32 = 0;
+    let mut out = vec![];
+    while !c.done() {
+        let op = c.next();
+        let a = c.next().clamp(0, 100000) as usize;
+        let b = c.next().clamp(0, 100000) as usize;
+        match op {
+            0 => {
+                SCRIPT.with(|s| {
+                    let mut s = s.borrow_mut();
+                    s.clear();
+                    s.push_back(a);
+                    s.push_back(b);
+                });
+                let before = delivered.load(Ordering::SeqCst);
+                let r = Pin::new(&mut task).poll(&mut Context::from_waker(&twaker));
+                out.push(match r {
+                    Poll::Pending => 0,
+                    Poll::Ready(None) => 1,
+                    Poll::Ready(Some(())) => 2,
+                });
+                out.push((delivered.load(Ordering::SeqCst) - before) as V);
+            }
+            1 => match consumer.as_mut() {
+                Some(cons) => match cons.poll_acquire((a.max(1)) as u32, &mut Context::from_waker(&cwaker)) {
+                    Poll::Ready(n) => {
+                        acquired = n;
+                        out.push(1);
+                        out.push(n as V);
+                    }
+                    Poll::Pending => {
+                        out.push(0);
+                        out.push(0);
+                    }
+                },
+                None => {
+                    out.push(9);
+                    out.push(0);
+                }
+            },
+            2 => match consumer.as_mut() {
+                Some(cons) => {
+                    let n = (a as u32).min(acquired);
+                    cons.release(n);
+                    acquired -= n;
+                    out.push(0);
+                    out.push(n as V);
+                }
+                None => {
+                    out.push(9);
+                    out.push(0);
+                }
+            },
+            _ => {
+                if consumer.take().is_some() {
+                    out.push(0);
+                } else {
+                    out.push(9);
+                }
+                out.push(0);
+            }
+        }
+        out.push(ccount.0.load(Ordering::SeqCst) as V);
+        out.push(tcount.0.load(Ordering::SeqCst) as V);
+    }
+    out
+}
+
+thread_local! {
+    static SCRIPT: std::cell::RefCell<std::collections::VecDeque<usize>> = Default::default();
+}
+
 fn main() {
-    main_with(&[("spsc", spsc), ("spsc_mt", spsc_mt), ("cursor", cursor_ring), ("worker", worker_chan), ("worker_clone", worker_clone)]);
+    main_with(&[("spsc", spsc), ("spsc_mt", spsc_mt), ("cursor", cursor_ring), ("worker", worker_chan), ("worker_clone", worker_clone), ("rxring", rx_ring)]);
 }
